@@ -2,6 +2,8 @@ package checks
 
 import (
 	"fmt"
+	"os"
+	"path/filepath"
 	"sort"
 	"strings"
 	"time"
@@ -28,6 +30,8 @@ type c09WS struct {
 	files   map[string]string
 	open    []string
 	queries []c09Query
+	// events: file events applied after the documents are opened and before the queries
+	events func(s *drv.Server)
 }
 
 func c09Workspaces() []c09WS {
@@ -36,7 +40,7 @@ func c09Workspaces() []c09WS {
 			files: map[string]string{"a.lua": "function f(x) end\n", "b.lua": "\nfunction f(x, y) end\n", "c.lua": "f(1, 2)\nprint(f)\n"},
 			open:  []string{"c.lua"},
 			queries: []c09Query{{"definition", "c.lua", 0, 0, ""}, {"hover", "c.lua", 0, 0, ""}, {"references", "c.lua", 0, 0, ""},
-				{"completion", "c.lua", 1, 7, ""}, {"wssymbol", "", 0, 0, "f"}}},
+				{"completion", "c.lua", 1, 7, ""}, {"completion", "c.lua", 2, 0, ""}, {"wssymbol", "", 0, 0, "f"}}},
 		{name: "w2-same-base-name-modules",
 			files: map[string]string{"x/m.lua": "local M = {}\nM.inx = 1\nreturn M\n", "y/m.lua": "local M = {}\nM.iny = 1\nreturn M\n",
 				"main.lua": "local mod = require(\"m\")\nprint(mod.inx, mod.iny)\n"},
@@ -66,6 +70,16 @@ func c09Workspaces() []c09WS {
 				"c.lua": "---@type Derived\nlocal v = {}\nprint(v.fa, v.fb)\n"},
 			open:    []string{"c.lua"},
 			queries: []c09Query{{"definition", "c.lua", 2, 8, ""}, {"definition", "c.lua", 2, 14, ""}, {"hover", "c.lua", 2, 8, ""}, {"completion", "c.lua", 2, 8, "."}}},
+		{name: "w9-one-watched-files-batch-naming-a-changed-and-an-unchanged-file",
+			files: map[string]string{"a.lua": "local z = 1\nprint(z)\n", "b.lua": "gy = 1\n", "c.lua": "print(gx, gy)\n"},
+			open:  []string{"c.lua"},
+			events: func(s *drv.Server) {
+				// b.lua is reported once with unchanged content, then a batch names a really changed a.lua together with b.lua
+				s.Watched([]drv.FileEvent{{Rel: "b.lua", Type: 2}})
+				os.WriteFile(filepath.Join(s.Root, "a.lua"), []byte("gx = 1\n"), 0o644)
+				s.Watched([]drv.FileEvent{{Rel: "a.lua", Type: 2}, {Rel: "b.lua", Type: 2}})
+			},
+			queries: []c09Query{{"definition", "c.lua", 0, 6, ""}, {"hover", "c.lua", 0, 6, ""}, {"references", "c.lua", 0, 6, ""}}},
 		{name: "w8-table-with-more-members-than-the-hover-preview-shows",
 			files: map[string]string{"a.lua": c09BigTable(), "b.lua": "print(big.f01)\n"},
 			open:  []string{"a.lua", "b.lua"},
@@ -117,7 +131,7 @@ func c09Answer(s *drv.Server, q c09Query) string {
 		}
 		var ls []string
 		for _, i := range it {
-			ls = append(ls, i.Label)
+			ls = append(ls, fmt.Sprintf("%s/%d", i.Label, i.Kind))
 		}
 		sort.Strings(ls)
 		return strings.Join(ls, ",")
@@ -161,6 +175,9 @@ func c09Body(ws c09WS) func() string {
 		defer s.Close()
 		for _, f := range ws.open {
 			s.Open(f, ws.files[f])
+		}
+		if ws.events != nil {
+			ws.events(s)
 		}
 		var sb strings.Builder
 		sb.WriteString(s.DiagView())
@@ -332,7 +349,7 @@ func init() {
 	core.Register(&core.Check{
 		ID:        "C09",
 		Technique: "stateless schedule exploration of the real server under a controlled runtime (iterative context bounding over goroutine start, channel, reflect.Select, mutex, WaitGroup and shared-object method-entry points) crossed with the pool width and every start offset of Go's map iteration; all executions of a workspace must give identical observables",
-		Rule: "closed systems: 8 small workspaces (a table with more members than the hover preview shows, a directory reachable under three names through symbolic links, duplicate global function, same-base-name modules, files that look at each other during the first pass through a type-2 import frame and an enum block, a global used in three files, symbols sharing a prefix, class annotations across files); each is started (directory scan, first/second/third pass pools), files are opened and definition/hover/references/completion/symbol queries are asked; " +
+		Rule: "closed systems: 9 small workspaces (a watched-files batch naming a changed and an unchanged file, a table with more members than the hover preview shows, a directory reachable under three names through symbolic links, duplicate global function, same-base-name modules, files that look at each other during the first pass through a type-2 import frame and an enum block, a global used in three files, symbols sharing a prefix, class annotations across files); each is started (directory scan, first/second/third pass pools), files are opened and definition/hover/references/completion/symbol queries are asked; " +
 			"explored: every schedule with <=1 deviation from the default schedule at synchronisation points for NumCPU in {1,2} x all 8 map-iteration start offsets (<=2 deviations at offset 0; thorough: at every offset), plus method-entry granularity with <=1 deviation at offsets {0,1} (thorough: <=2 at offset 0); oracle: the normalised observables equal those of the canonical execution (1 CPU, offset 0, default schedule). " +
 			"states = completed executions; transitions = scheduling decisions; non-trivial = configurations with more than one outcome",
 		Assumptions: []string{
